@@ -394,9 +394,12 @@ def rule_call(repo: Repo) -> RuleResult:
 
 
 def rules(repo: Repo, tier: str) -> List[RuleResult]:
-    from . import c03
+    from . import c03, c14
     return [rule_thread(repo, "C04.thread", "TrajectoryExporter.parse_plan", "create_single_triplet"),
             rule_refuse(repo), rule_except(repo), rule_flag(repo), rule_call(repo),
             # 'every post-state is the successor of its pre-state under that step's action': the transition clauses of C03
             c03.rule_antecedent(repo).as_rule("C04.step.antecedent"), c03.rule_copy(repo).as_rule("C04.step.copy"),
-            c03.rule_universal(repo).as_rule("C04.step.universal"), c03.rule_prestate_rhs(repo).as_rule("C04.step.prestate_rhs")]
+            c03.rule_universal(repo).as_rule("C04.step.universal"), c03.rule_prestate_rhs(repo).as_rule("C04.step.prestate_rhs"),
+            # the recorded states stay what they were: the successor is built on a copy that shares no container with the pre-state
+            # (an aliased container is rewritten by the NEXT step, retroactively changing the triplets already produced)
+            c14.rule_copy(repo, "C04.copyfresh")]
